@@ -43,17 +43,17 @@ CHECKS = {
    ref="DESIGN.md §5 C06",
    note="Generated/Householder.lean (harness/translate_householder.py): hh_CCQR / hh_GQR (program as written = the program hhStep / reflectorAt were transcribed from), hh_*_reflector (its steps denote the reflector of Lemmas/Householder.lean), hh_CCQR_pick (its pivot rule is firstArgmaxBy scoreGe); the order of the array operations is compared structurally, not given a matrix semantics. Reductions are compared on real runs only where every exact greedy choice is unique by more than the budget."),
  "C02": dict(
-   cat="proof", technique="Lean 4 theorems (normal equations + injective sensor rows => coefficients recovered) over a certifying exact rational solver + differential against real predict",
+   cat="proof", technique="Lean 4 theorems (normal equations + injective sensor rows => coefficients recovered) over a certifying exact rational solver + differential against real predict + translator regenerating the dispatch of predict and both reconstruction formulas from the AST (reconProg = ReconProg.spec by decide; its evaluation with the certifying solvers is predictExact)",
    text="recon_exact / recon_exact_square / more_sensors_injective / independent_rows_injective prove that in-span signals are reproduced at every location whenever the selected rows have full column rank "
         "(for QR via C03's independence of greedy pivots); the exact model (which accepts a solution only after an exact multiplication check: solveExact_sound) must return the signal itself and the real predict is compared within a conditioning budget.",
    ref="DESIGN.md §5 C02",
-   note="PARTIAL on the clause 'up to rounding error proportional to conditioning': IEEE-754 and LAPACK (gesv, gelsd) are not modelled; that clause is validated numerically (|error| <= 1e-7*(1+|x|)*kappa, kappa > 1e6 skipped and counted)."),
+   note="Generated/Recon.lean (harness/translate_recon.py): recon_predict, recon_predict_is_model – SSPOR.predict / _square_predict / _rectangular_predict as written are the model's predictExact (solve when n_sensors == n_modes, else lstsq; system = gathered sensor rows; result = basis times coefficients); any extra statement (cache, cast, shortcut, keyword) makes the site untranslatable. PARTIAL on the clause 'up to rounding error proportional to conditioning': IEEE-754 and LAPACK (gesv, gelsd) are not modelled; that clause is validated numerically (|error| <= 1e-7*(1+|x|)*kappa, kappa > 1e6 skipped and counted)."),
  "C07": dict(
-   cat="proof", technique="Lean 4 theorems (least-squares optimality, interpolation, linearity, minimum-norm uniqueness from the normal equations) + differential against real predict incl. shapes",
+   cat="proof", technique="Lean 4 theorems (least-squares optimality, interpolation, linearity, minimum-norm uniqueness from the normal equations) + differential against real predict incl. shapes + translator regenerating the dispatch of predict and both reconstruction formulas from the AST (reconProg = ReconProg.spec by decide; its evaluation with the certifying solvers is predictExact)",
    text="predict_in_span, predict_least_squares, predict_interpolates, predict_linear, predict_linear_minnorm, predictExact_rows; real predict on measurement arrays in/out of the span, 1-D and 2-D, n_sensors below/equal/above n_modes "
         "is compared with the exact model and checked for span membership, interpolation, superposition, shapes and 1-D/row-batch equality.",
    ref="DESIGN.md §5 C07",
-   note="PARTIAL on rounding: LAPACK's contract (solution / minimum-norm least-squares solution) is a parameter; budget 1e-7*scale*kappa^2."),
+   note="Generated/Recon.lean (harness/translate_recon.py): recon_predict, recon_predict_is_model – SSPOR.predict / _square_predict / _rectangular_predict as written are the model's predictExact (solve when n_sensors == n_modes, else lstsq; system = gathered sensor rows; result = basis times coefficients); any extra statement (cache, cast, shortcut, keyword) makes the site untranslatable. PARTIAL on rounding: LAPACK's contract (solution / minimum-norm least-squares solution) is a parameter; budget 1e-7*scale*kappa^2."),
  "C08": dict(
    cat="proof", technique="Lean 4 theorems about the selection model (sorted permutation, top-n maximality, prefix, threshold iff, default threshold vs Real.sqrt) + history differential with injected exact coefficient arrays + translator regenerating the four selection branches of update_sensors, the stored count and the default threshold of fit from the AST (selProg = SelProg.spec by decide; sel_* = topN / threshSel; default_threshold_den)",
    text="argsortDesc_perm/_sorted, topN_spec, topN_prefix, thresh_iff, thresh_antitone, thresh_zero_all, default_threshold_sq, update_count_ok, fit_count_ok, update_rejected_unchanged; histories of fit/update_sensors on the real SSPOC "
